@@ -122,8 +122,40 @@ func jsonValue(depth int) string {
 	case 7:
 		return jsonObject(depth - 1)
 	default:
-		return "{\"min\":" + jsonValue(0) + ",\"max\":" + jsonValue(0) + ",\"inclusive\":" + []string{"true", "false", "1"}[rtChoose("incl", 3)] + "}"
+		return jsonBoundary()
 	}
+}
+
+// jsonBoundary chooses a range-boundary object, complete or with "min"/"max" missing as direct
+// members but occurring deeper down.
+func jsonBoundary() string {
+	switch bshapeOf(rtChoose("bshape", bshapeCount())) {
+	case 1: // "min" occurs only below "max"
+		return "{\"max\":{\"min\":1,\"max\":" + jsonValue(0) + "},\"inclusive\":true}"
+	case 2: // "max" occurs only in an unknown member
+		return "{\"min\":" + jsonValue(0) + ",\"x\":{\"max\":2}}"
+	case 3: // no "inclusive"
+		return "{\"min\":1,\"max\":" + jsonValue(0) + "}"
+	}
+	return "{\"min\":" + jsonValue(0) + ",\"max\":" + jsonValue(0) + ",\"inclusive\":" + []string{"true", "false", "1"}[rtChoose("incl", 3)] + "}"
+}
+
+// BSHAPE selects the boundary layouts: 0 the plain one only, 1 all four, 10+k the plain one and layout k.
+func bshapeCount() int {
+	switch b := rtParam("BSHAPE"); {
+	case b == 1:
+		return 4
+	case b >= 10:
+		return 2
+	}
+	return 1
+}
+
+func bshapeOf(c int) int {
+	if b := rtParam("BSHAPE"); b >= 10 && c == 1 {
+		return b - 10
+	}
+	return c
 }
 
 // jsonObject chooses an expression object: any subset of the schema's members with values of
@@ -131,6 +163,16 @@ func jsonValue(depth int) string {
 func jsonObject(depth int) string {
 	out := "{"
 	sep := ""
+	rb := rtParam("RB") == 1 && depth == rtParam("D") // the root's right member is a boundary object
+	if rb {
+		if rtChoose("hasleft", 2) == 0 {
+			out += "\"left\":\"a\""
+			sep = ","
+		}
+		out += sep + "\"operator\":" + jsonStr([]string{"RANGE", "EQUALS", "AND"}[rtChoose("op", 3)])
+		out += ",\"right\":" + jsonBoundary()
+		return out + "}"
+	}
 	if rtChoose("hasleft", 2) == 0 {
 		out += "\"left\":" + jsonValue(depth)
 		sep = ","
